@@ -199,11 +199,17 @@ def C10(ck):
     ck.assumptions = TRUST + ["the independent CBOR reader harness/cborx"]
     _wire_model(ck)
     valid = vlib.gen_export("Gen_Valid", "Gen_Valid.cfg", "valid")
+    dom = vlib.gen_export("Gen_Claims", "Gen_Claims.cfg", "domains")
+    wire = vlib.gen_export("Gen_Wire", "Gen_Wire.cfg", "wire")
     try:
         ck.run_and_judge(["wire-encode", "-seed", ck.seed, "-tier", ck.tier, "-n", _stride(ck, 3), "-chunk", 4000,
                           "-in", valid, "-out", ck.path("we"), "cbor"], "Trace_Wire", par=12, xmx="3g")
+        # "... or obtained by decoding": every token of the C04 enumeration that decodes (unknown keys, non-preferred
+        # integer widths, permuted order ...) is encoded again and its encoding judged the same way
+        ck.run_and_judge(["wire-decode", "-seed", ck.seed, "-tier", ck.tier, "-chunk", 4000, "-in", wire, "-in2", dom,
+                          "-out", ck.path("wd"), "rtonly"] + (["nopairs"] if ck.tier == "quick" else []), "Trace_Wire", par=12, xmx="3g")
     finally:
-        _rm(valid)
+        _rm(valid, dom, wire)
 
 
 def C12(ck):
@@ -303,7 +309,7 @@ def C07(ck):
                               "-out", ck.path("jd")], "Trace_Wire", par=12, xmx="3g", mode="dispatch")
         finally:
             _rm(jdom)
-        _reg_hist(ck, 60 if ck.tier == "quick" else 1000)
+        _reg_hist(ck, 160 if ck.tier == "quick" else 1000)
     finally:
         _rm(dom, wire, valid)
 
